@@ -12,7 +12,8 @@ Record counts := mkCounts { c_count : nat; c_succ : nat; c_skip : nat; c_fail : 
    talks about ("timestamp", "message", "error" texts are not part of it) *)
 Inductive line :=
 | LValidation (ids : list nat)                      (* type=validation, objects *)
-| LAct (k : akind) (id : nat) (st : astatus)        (* type=apply|prune|delete, id, status *)
+| LAct (k : akind) (id : nat) (st : astatus) (has_err : bool)
+    (* type=apply|prune|delete, id, status; has_err: an "error" key is present *)
 | LWait (id : nat) (st : wstatus)                   (* type=wait *)
 | LStatus (id : nat) (st : kstatus)                 (* type=status *)
 | LError                                            (* type=error *)
@@ -78,7 +79,7 @@ Fixpoint print_loop (print_status : bool) (s : stats) (es : list event) : list l
               | [] => ([], RErrFormat)      (* "invalid validation event: no identifiers" *)
               | _ => continue_with [LValidation ids]
               end
-          | EAct k id st => continue_with [LAct k id st]
+          | EAct k id st he => continue_with [LAct k id st he]
           | EWait id st => continue_with [LWait id st]
           | EStatus id st => if print_status then continue_with [LStatus id st] else continue_with []
           | EGroup _ a fin => continue_with [group_line a fin s']
@@ -95,7 +96,7 @@ Definition stops (e : event) : bool :=
   match e with
   | EError _ => true
   | EValidation [] => true
-  | EAct _ _ StPending => true
+  | EAct _ _ StPending _ => true
   | _ => false
   end.
 
@@ -105,7 +106,7 @@ Definition ev_wf (e : event) : bool :=
   match e with
   | EError nonnil => nonnil
   | EValidation [] => false
-  | EAct _ _ StPending => false
+  | EAct _ _ StPending _ => false
   | _ => true
   end.
 
@@ -116,13 +117,13 @@ Definition prints (print_status : bool) (e : event) : bool :=
   | EStatus _ _ => print_status
   | EError nonnil => nonnil
   | EValidation [] => false
-  | EAct _ _ StPending => false
+  | EAct _ _ StPending _ => false
   | _ => true
   end.
 
 Definition is_act (k : akind) (st : astatus) (e : event) : bool :=
   match e with
-  | EAct k' _ st' =>
+  | EAct k' _ st' _ =>
       match k, k' with KApply, KApply | KPrune, KPrune | KDelete, KDelete => true | _, _ => false end
       && match st, st' with
          | StPending, StPending | StSuccessful, StSuccessful
@@ -164,7 +165,7 @@ Definition counts_after (a : action) (es : list event) : option counts :=
 Definition line_for (before : list event) (e : event) : line :=
   match e with
   | EValidation ids => LValidation ids
-  | EAct k id st => LAct k id st
+  | EAct k id st he => LAct k id st he
   | EWait id st => LWait id st
   | EStatus id st => LStatus id st
   | EGroup _ a fin => LGroup a fin (if fin then counts_after a before else None)
@@ -173,7 +174,7 @@ Definition line_for (before : list event) (e : event) : line :=
 
 Definition is_failure (e : event) : bool :=
   match e with
-  | EAct _ _ StFailed => true
+  | EAct _ _ StFailed _ => true
   | EWait _ WFailed | EWait _ WTimeout => true
   | _ => false
   end.
@@ -214,7 +215,7 @@ Fixpoint result_spec (before es : list event) : result :=
       | EError true => RErrEvent
       | EError false => RPanic
       | EValidation [] => RErrFormat
-      | EAct _ _ StPending => RPanic
+      | EAct _ _ StPending _ => RPanic
       | _ => result_spec (before ++ [e]) t
       end
   end.
@@ -222,7 +223,7 @@ Fixpoint result_spec (before es : list event) : result :=
 (* a line identifies the same object(s), action and status as the event *)
 Definition line_matches (e : event) (l : line) : Prop :=
   match e with
-  | EAct k id st => l = LAct k id st
+  | EAct k id st he => l = LAct k id st he
   | EWait id st => l = LWait id st
   | EStatus id st => l = LStatus id st
   | EValidation ids => l = LValidation ids
